@@ -45,6 +45,7 @@ func C13(c *vk.Ctx) {
 	}
 	hubCampaign(c, cfgs, c.Pick(700, 8000), allDownEdges, 60, predC13)
 	c13Concurrent(c)
+	c.Add("traces_validated_against_impl", int64(queuedBehindFailingLoad(c, []string{"then-good"})))
 	c.Set("spec", "EntryLocks.tla (NoDeadlock as an invariant over the wait-for relation, Lockset) + CrlRepo.tla (lock discipline) + Revocation.tla histories")
 	c.Set("rule", "sequential part: every edge of the Revocation graph of two configurations is executed with a 30 s watchdog per call (the longest legitimate retry loop is 5 s); concurrent part: see c13Concurrent")
 }
